@@ -70,7 +70,7 @@ CHECKS = {
  'C03': dict(engine='E4-enum', category='exploration', design='DESIGN.md 6, 7, 9/C03, harness/C03/NOTES.md',
    technique='exhaustive enumeration on tiny prime-order curves: every (private key, hash integer 0..2n, nonce 0..2n) through the signer, the full verifier truth table over all (Q, e, r, s) against an independent SEC 1 / GOST R 34.10 reference with brute-force point arithmetic; byte entry points with every hash length and every single-bit / boundary mutation under ASan; several build configurations',
    text='For both algorithm ids: whenever signing succeeds the signature verifies with the public-key verifier, the private-key verifier and the reference verifier; reference-made signatures are accepted; the accept/reject decision of both verifiers equals the standard for every tuple of the truth table (r, s in [0, n+1], all group points and off-curve points as Q); be/le byte entry points with hashes shorter, equal and longer than the curve size.',
-   note='Real-size curves only through the repository vectors and mutation alphabets; "never reports success when an internal computation failed" is checked only where valid inputs provoke a failure (nonce 0, key 0): no fault hook was added to the headers; little-endian and GOST hashes longer than the field have no standard reading and are checked for self-consistency only.'),
+   note='Real-size curves only through the repository vectors and mutation alphabets; "never reports success when an internal computation failed" is decided by fault enumeration through the guarded hook LCB_VERIF_FAIL in the three scalar-multiplication dispatchers (every k-th multiplication of every byte-level operation on all 32 built-in curves fails in turn; the operation must return non-zero), other internal failures (bignum EOVERFLOW) are not injected; little-endian and GOST hashes longer than the field have no standard reading and are checked for self-consistency only.'),
  'C09': dict(engine='E4-enum', category='exploration', design='DESIGN.md 6, 7, 9/C09, harness/C09/NOTES.md',
    technique='exhaustive enumeration on tiny curves (all points x 4 encodings x 2 byte orders; every byte string of every accepted length on one-byte fields; all seeds, private keys and (d1, d2) pairs) plus the 32 built-in curves, against a brute-force group oracle, exact-size heap buffers under ASan',
    text='export then import is the identity for every point and form; import with validation accepts exactly the encodings of the neutral element or of on-curve points annihilated by n with coordinates < p and a known prefix, compressed input recovers the root with the requested parity; key generation, public-key recovery and Diffie-Hellman equal the reference and DH is symmetric; every byte entry point stays inside the sizes passed.',
